@@ -16,9 +16,9 @@ OTHER_URIS = ["docker://docker.io/heroku/procfile-cnb:2.0.1", "docker://REGISTRY
               "https://example.com/a/../b/./c.cnb", "https://EXAMPLE.com/%7Euser/%41.cnb", "docker://Docker.IO:443/Heroku/x//y",
               # authority only, empty path
               "https://example.com:8443", "http://h"]
-ABS_PATHS = ["/abs/path", "/abs/../dots/./kept", "/trailing/", "/", "/a//b", "/x/y/../../../z"]
-LOCS = ["src", "a-b/x.y", "deep/er/still/more", "composite_1", "m"]
-SEGS = [".", "..", "a", "b-c", "d.e", "", "..", "x_y", "~t", "1"]
+ABS_PATHS = ["/abs/path", "/abs/../dots/./kept", "/trailing/", "/", "/a//b", "/x/y/../../../z", "/abs/team%20a/bp", "/abs/50%25/x", "/abs/%7Euser/%41"]      # a '%' in a path is a character of the path
+LOCS = ["src", "a-b/x.y", "deep/er/still/more", "composite_1", "m", "team%20a/src"]
+SEGS = [".", "..", "a", "b-c", "d.e", "", "..", "x_y", "~t", "1", "team%20a", "p%25c"]
 
 
 def rel_path(r):
